@@ -55,8 +55,10 @@ def plan(tier, seed, kf_ids, prefix="c12", budget=False):
     jobs.append(T.trig(prefix, "sin", a, T.FULL, "all", UW(a, 30), B(a), 200 if not budget else 0))
     # cos adds pi/2 before reducing: operands within 2 of the type's maximum overflow that addition (outside C12's |x|<=200)
     jobs.append(T.trig(prefix, "cos", a, T.FULL, "all", UW(a, 30), B(a), 200 if not budget else 254))
-    jobs.append(T.total1(prefix, "log2", a, a, T.FULL, "all", UW(a, 36), B(a), timeout=2400, bounds="all 2^32 operands"))
     fam = "+-(2^p +- t), max - t, min + t; t < 256, every binade p"
+    jobs.append(T.total1(prefix, "log2", a, a, T.family(a), "family", UW(a, 36), B(a), timeout=2400, bounds=fam))
+    jobs.append(T.total1(prefix, "log2", a, a, T.FULL, "all", UW(a, 36), B(a), timeout=2400, bounds="all 2^32 operands"))
+    jobs[-1].prio = 9    # 6-7 min: decided last, when the run budget allows
     jobs.append(T.total1(prefix, "sqrt", a, a, T.family(a), "family", UW(a, 36), B(a), timeout=2400, bounds=fam))
     jobs.append(T.total1(prefix, "ln", a, a, T.family(a), "family", UW(a, 36), B(a), timeout=2400, bounds=fam))
     jobs.append(T.total1(prefix, "exp", a, "I32F32", T.FULL, "all", UW("I32F32", 40), B("I32F32"), bounds="all 2^32 operands"))
@@ -92,6 +94,9 @@ def plan(tier, seed, kf_ids, prefix="c12", budget=False):
             jobs.append(Job(name, "tr_total_powi!(%s, %d, I9F23, I9F23, i32, %s, %s);" % (name, unw, xop, nexpr),
                             "powi::<I9F23,I9F23>(x, n), n %s, %s: Ok or Err without panic" % (nname, xdesc), timeout=1800,
                             inst="powi I9F23", bounds="n %s; %s" % (nname, xdesc)))
+    for j in jobs:
+        if "sqrt_i9f23_i9f23_family" in j.name or "_pow_i9f23_family" in j.name or "_tan_" in j.name:
+            j.prio = 1   # the longest ones start first
     return {
         "feature": prefix,
         "jobs": jobs,
